@@ -1,4 +1,6 @@
 import Swat4.Lemmas.ReporterErr
+import Swat4.Lemmas.ReporterLenient
+import Swat4.Lemmas.ReporterPost
 import Swat4.Model.BrowserReq06
 /-!
 # C06 — No inbound bytes can crash a listener or change state unless well-formed
@@ -6,10 +8,18 @@ import Swat4.Model.BrowserReq06
 UDP half: `Heartbeat.dispatch` (the reporter dispatcher with its handlers and use cases).
 TCP half: `BrowserReq06.newRequest` / `handle` (the browser request parser, outcome class only).
 "Returns promptly" and "the process keeps running" are run-time facts, measured by the harness
-(`udpsrv` stream), not theorems.
+(`udpsrv` stream), not theorems.  "Sends at most one reply" is NOT a theorem either: `Outcome` / `TcpOutcome`
+cannot express two replies, so the clause is covered by the harness's reply count only (see below).
+
+"Unchanged unless well-formed": `malformed_no_effect` is stated over `WellFormedMutating`, which is defined FROM
+the model ("the model accepted it") and is therefore definitional.  The clause with content is
+`mutation_implies_decodable`: a datagram that changes the state is accepted by the INDEPENDENT decoder
+`ReporterSpec.decode?` as a heartbeat or keepalive, or exhibits one of three documented parser leniencies
+(`ReporterSpec.Quirk`, Spec/ReporterLenient.lean) — each witnessed below — and `acts_as_wellformed`: in every
+case it has exactly the effect and reply of a well-formed message.
 -/
 namespace Swat4.C06
-open Swat4 Swat4.Heartbeat Swat4.Rep Swat4.BrowserReq06
+open Swat4 Swat4.Heartbeat Swat4.Rep Swat4.BrowserReq06 Swat4.ReporterSpec
 
 /-! ## UDP: totality -/
 
@@ -61,7 +71,14 @@ def replies : Outcome → List Bytes
   | .reply b => [b]
   | _ => []
 
-/-- **At most one reply per datagram** (`Dispatcher.Handle` writes `resp` once when it is non-nil) -/
+/-- At most one reply per datagram (`Dispatcher.Handle` writes `resp` once when it is non-nil).
+TYPE-LEVEL ONLY, NOT AN AUDITED OBLIGATION: this holds for any function into `Outcome` whatsoever (the type has
+no way to express two replies), so it says nothing about the code.  The clause "sends at most one reply" of C06
+is covered by the harness only: the `udpsrv` stream (thorough tier) sends datagrams to the real `udpserver` on a
+socket and COUNTS the reply datagrams that come back (`replies:<n>`, oracle `n ≤ number of datagrams`,
+signature `udp-more-than-one-reply`); the in-process stream compares the one response slice the real `dispatch`
+returns with the model's outcome; the TCP stream compares the total number of bytes the real handler wrote on
+the connection with the model's reply length. -/
 theorem at_most_one_reply (cfg : Cfg) (st : AbsState) (srcIp srcPort : Nat) (b : Bytes) (now : Int) :
     (replies (dispatch cfg st srcIp srcPort b now).2).length ≤ 1 := by
   cases (dispatch cfg st srcIp srcPort b now).2 <;> simp [replies]
@@ -71,6 +88,7 @@ def tcpReplies : TcpOutcome → Nat
   | .reply _ => 1
   | _ => 0
 
+/-- TYPE-LEVEL ONLY, NOT AN AUDITED OBLIGATION (see `at_most_one_reply`): holds for any function into `TcpOutcome`. -/
 theorem tcp_at_most_one_reply (p : Option Bytes) : tcpReplies (handle p) ≤ 1 := by
   cases handle p <;> simp [tcpReplies]
 
@@ -164,14 +182,18 @@ def reachesUseCase (srcIp : Nat) (payload : Bytes) : Bool :=
     else if t.toNat = Facts.reporterMsgKeepalive then (parseInstanceID payload).isSome
     else false
 
-/-- `WellFormedMutating`: the datagram is a heartbeat, removal or keepalive that reaches its use case and
+/-- `WellFormedMutating` — DEFINED FROM THE MODEL (it mentions `dispatch` itself: "the model did not answer
+`err`"), so theorems stated over it are definitional; the independent statement is `mutation_implies_decodable`.
+The datagram is a heartbeat, removal or keepalive that reaches its use case and
 that the use case accepts (report: values parse and validate, query port valid for a new server;
 removal: server present, instance present and owned by the sender's IP; keepalive: instance known, owned
 by the sender's IP, its server present) -/
 def WellFormedMutating (cfg : Cfg) (st : AbsState) (srcIp srcPort : Nat) (b : Bytes) (now : Int) : Prop :=
   reachesUseCase srcIp b = true ∧ (dispatch cfg st srcIp srcPort b now).2 ≠ .err
 
-/-- a datagram that does not reach a use case changes nothing (whatever it is answered) -/
+/-- a datagram that does not reach a use case changes nothing (whatever it is answered).  (`reachesUseCase` is
+defined with the model's own scanner: this is a fact about the model's control flow, used by
+`mutation_implies_decodable`, not a well-formedness statement by itself.) -/
 theorem unreached_no_effect (cfg : Cfg) (st : AbsState) (srcIp srcPort : Nat) (b : Bytes) (now : Int)
     (h : reachesUseCase srcIp b = false) : (dispatch cfg st srcIp srcPort b now).1 = st := by
   revert h
@@ -214,7 +236,10 @@ theorem unreached_no_effect (cfg : Cfg) (st : AbsState) (srcIp srcPort : Nat) (b
         · rfl
         · split <;> rfl
 
-/-- **Malformed ⇒ no effect.** Unless the datagram is a well-formed mutating message, the state after it
+/-- **Malformed ⇒ no effect** — DEFINITIONAL: `WellFormedMutating` is "the model reached a use case and did not
+answer `err`", so this is `rejected_no_effect` + `unreached_no_effect` repackaged; it does not say that a
+mutating datagram is well-formed by any standard other than the model's own.  For that see
+`mutation_implies_decodable` below.  Unless the datagram is a well-formed mutating message, the state after it
 is the state before it. -/
 theorem malformed_no_effect (cfg : Cfg) (st : AbsState) (srcIp srcPort : Nat) (b : Bytes) (now : Int)
     (h : ¬ WellFormedMutating cfg st srcIp srcPort b now) : (dispatch cfg st srcIp srcPort b now).1 = st := by
@@ -232,6 +257,264 @@ theorem only_heartbeat_keepalive_mutate (cfg : Cfg) (st : AbsState) (srcIp srcPo
   unfold reachesUseCase
   dsimp only
   rw [if_neg h1, if_neg h2]
+
+/-! ## mutation ⇒ decodable by the independent decoder -/
+
+theorem u8_of_toNat {t : UInt8} {n : Nat} (x : UInt8) (hx : x.toNat = n) (h : t.toNat = n) : t = x :=
+  UInt8.toNat_inj.mp (h.trans hx.symm)
+
+theorem parseInstanceID_some {b id r : Bytes} {t : UInt8} (h : parseInstanceID (t :: b) = some (id, r)) :
+    id.length = 4 ∧ b = id ++ r := by
+  unfold parseInstanceID at h
+  split at h
+  · cases h
+  · rename_i hl
+    simp only [List.length_cons] at hl
+    simp only [List.drop_succ_cons, List.drop_zero, Option.some.injEq, Prod.mk.injEq] at h
+    obtain ⟨h1, h2⟩ := h
+    subst h1 h2
+    exact ⟨by simp only [List.length_take]; omega, (List.take_append_drop 4 b).symm⟩
+
+/-- the conclusion of `mutation_implies_decodable`: the independent decoder accepts the datagram as a heartbeat
+or a keepalive, or the datagram exhibits one of the three documented leniencies -/
+def DecodableOrQuirk (b : Bytes) : Prop :=
+  (∃ m, decode? b = some m ∧ (m.isHeartbeat = true ∨ m.isKeepalive = true)) ∨ Quirk b
+
+/-- every datagram that gets as far as a use case is decodable or quirky (the use case need not accept it) -/
+theorem reaches_implies_decodable (srcIp : Nat) (b : Bytes) (h : reachesUseCase srcIp b = true) : DecodableOrQuirk b := by
+  unfold reachesUseCase at h
+  cases b with
+  | nil => cases h
+  | cons t rest =>
+    dsimp only at h
+    by_cases ht : t.toNat = Facts.reporterMsgHeartbeat
+    · rw [if_pos ht] at h
+      have ht3 : t = 0x03 := u8_of_toNat 0x03 (by decide) ht
+      subst ht3
+      cases hp : parseInstanceID (0x03 :: rest) with
+      | none => rw [hp] at h; cases h
+      | some p =>
+        obtain ⟨id, r⟩ := p
+        rw [hp] at h
+        dsimp only at h
+        obtain ⟨hid, hrest⟩ := parseInstanceID_some hp
+        cases hf : parseHeartbeatParams r with
+        | none => rw [hf] at h; cases h
+        | some fields =>
+          unfold parseHeartbeatParams at hf
+          obtain ⟨items, trailer, hall, htr, hshape, _⟩ := scan_lenient r.length r [] fields (Nat.le_refl _) hf
+          cases hshape with
+          | inl hs =>
+            cases hpu : pairUp items with
+            | none =>
+              right
+              exact Quirk.oddSkip id items trailer hid hall htr hpu (by rw [hrest, hs])
+            | some kvs =>
+              left
+              obtain ⟨henc, hwfk⟩ := pairUp_some items.length items (Nat.le_refl _) kvs hall hpu
+              have hwf : WfHeartbeat ⟨id, kvs, trailer⟩ := by
+                simp only [WfHeartbeat, wfHeartbeat, hid, hwfk, beq_self_eq_true, Bool.true_and]
+                exact htr
+              refine ⟨.heartbeat ⟨id, kvs, trailer⟩, ?_, Or.inl rfl⟩
+              have hb : (0x03 : UInt8) :: rest = encodeHeartbeat ⟨id, kvs, trailer⟩ := by
+                unfold encodeHeartbeat
+                rw [hrest, hs, henc]
+              rw [hb]
+              exact decode?_encodeHeartbeat _ hwf
+          | inr hs =>
+            right
+            refine Quirk.unterminated id items hid hall ?_
+            rw [hrest, ← hs.2]
+            simp
+    · rw [if_neg ht] at h
+      by_cases hk : t.toNat = Facts.reporterMsgKeepalive
+      · rw [if_pos hk] at h
+        have ht8 : t = 0x08 := u8_of_toNat 0x08 (by decide) hk
+        subst ht8
+        cases hp : parseInstanceID (0x08 :: rest) with
+        | none => rw [hp] at h; cases h
+        | some p =>
+          obtain ⟨id, r⟩ := p
+          obtain ⟨hid, hrest⟩ := parseInstanceID_some hp
+          cases r with
+          | nil =>
+            left
+            rw [hrest, List.append_nil]
+            exact ⟨.keepalive id, decode?_keepalive id hid, Or.inr rfl⟩
+          | cons x xs =>
+            right
+            exact Quirk.keepaliveTrailer id (x :: xs) hid (by simp) (by rw [hrest])
+      · rw [if_neg hk] at h; cases h
+
+/-- **A datagram that changes the state is well-formed by the independent decoder, up to three documented
+leniencies.**  C06 clause "the registry, instance table and probe queue are unchanged unless the message is a
+well-formed heartbeat, keepalive or removal".  For every state, source, clock and datagram `b`: if the state
+after `dispatch` differs from the state before, then EITHER `ReporterSpec.decode? b = some m` for a heartbeat
+(report or removal) or keepalive `m` — the decoder written from the wire format, sharing no code with the
+scanner — OR `b` is (`ReporterSpec.Quirk`)
+* a keepalive followed by extra bytes (`keepalive.Handler` ignores `payload[5:]`), or
+* a heartbeat whose LAST string lacks its NUL (`ConsumeCString` returns the rest of the slice when there is no NUL), or
+* a heartbeat in which unknown strings do not come in name/value pairs (`parseHeartbeatParams` `continue`s on an
+  unknown name WITHOUT consuming its value).
+`Quirk` is stated over the bytes alone (concatenations of NUL-terminated strings); it does not mention the scanner.
+The statement WITHOUT the `Quirk` disjunct is FALSE of the model and of the Go code: see the three witnesses below. -/
+theorem mutation_implies_decodable (cfg : Cfg) (st : AbsState) (srcIp srcPort : Nat) (b : Bytes) (now : Int)
+    (h : (dispatch cfg st srcIp srcPort b now).1 ≠ st) : DecodableOrQuirk b := by
+  apply reaches_implies_decodable srcIp
+  cases hr : reachesUseCase srcIp b with
+  | true => rfl
+  | false => exact absurd (unreached_no_effect cfg st srcIp srcPort b now hr) h
+
+
+theorem handleHeartbeat_congr (cfg : Cfg) (st : AbsState) (ip port : Nat) (now : Int) (p1 p2 id r1 r2 : Bytes) (fields : FieldMap)
+    (h1 : parseInstanceID p1 = some (id, r1)) (h1' : parseHeartbeatParams r1 = some fields)
+    (h2 : parseInstanceID p2 = some (id, r2)) (h2' : parseHeartbeatParams r2 = some fields) :
+    handleHeartbeat cfg st ip port p1 now = handleHeartbeat cfg st ip port p2 now := by
+  unfold handleHeartbeat
+  rw [h1, h2]
+  dsimp only
+  rw [h1', h2']
+
+theorem dispatch_heartbeat (cfg : Cfg) (st : AbsState) (ip port : Nat) (now : Int) (rest : Bytes) :
+    dispatch cfg st ip port (0x03 :: rest) now = handleHeartbeat cfg st ip port (0x03 :: rest) now := by
+  have h1 : ((0x03 : UInt8).toNat = Facts.reporterMsgHeartbeat) = True := by decide
+  unfold dispatch
+  simp only [h1, if_true]
+
+theorem dispatch_keepalive (cfg : Cfg) (st : AbsState) (ip port : Nat) (now : Int) (rest : Bytes) :
+    dispatch cfg st ip port (0x08 :: rest) now = handleKeepalive st ip (0x08 :: rest) now := by
+  have h1 : ((0x08 : UInt8).toNat = Facts.reporterMsgHeartbeat) = False := by decide
+  have h2 : ((0x08 : UInt8).toNat = Facts.reporterMsgKeepalive) = True := by decide
+  unfold dispatch
+  simp only [h1, h2, if_false, if_true]
+
+/-- **… and, quirky or not, it acts exactly as a well-formed message.**  Every datagram that reaches a use case
+(in particular every datagram that changes the state) has, in every state, exactly the effect and the outcome of
+`encode m` for a well-formed heartbeat/keepalive `m` that the independent decoder accepts: for a heartbeat the
+message with the same instance id and the reportable pairs of the datagram in order (skipped strings and trailer
+dropped), for a keepalive the first five bytes.  So the leniencies let no NEW state transition in: by
+`C04.step_refines` the effect is `ReporterSpec.absStep` of `m`. -/
+theorem acts_as_wellformed (cfg : Cfg) (st : AbsState) (srcIp srcPort : Nat) (b : Bytes) (now : Int)
+    (h : reachesUseCase srcIp b = true) :
+    ∃ m, wfMsg m = true ∧ (m.isHeartbeat = true ∨ m.isKeepalive = true) ∧ decode? (encode m) = some m ∧
+      dispatch cfg st srcIp srcPort b now = dispatch cfg st srcIp srcPort (encode m) now := by
+  unfold reachesUseCase at h
+  cases b with
+  | nil => cases h
+  | cons t rest =>
+    dsimp only at h
+    by_cases ht : t.toNat = Facts.reporterMsgHeartbeat
+    · rw [if_pos ht] at h
+      have ht3 : t = 0x03 := u8_of_toNat 0x03 (by decide) ht
+      subst ht3
+      cases hp : parseInstanceID (0x03 :: rest) with
+      | none => rw [hp] at h; cases h
+      | some p =>
+        obtain ⟨id, r⟩ := p
+        rw [hp] at h
+        dsimp only at h
+        obtain ⟨hid, hrest⟩ := parseInstanceID_some hp
+        cases hf : parseHeartbeatParams r with
+        | none => rw [hf] at h; cases h
+        | some fields =>
+          have hf' := hf
+          unfold parseHeartbeatParams at hf'
+          obtain ⟨items, trailer, hall, htr, hshape, hfields⟩ := scan_lenient r.length r [] fields (Nat.le_refl _) hf'
+          have hwfk := pairsOf_wf items hall
+          have hwf : WfHeartbeat ⟨id, pairsOf items, []⟩ := by
+            simp only [WfHeartbeat, wfHeartbeat, hid, hwfk, beq_self_eq_true, Bool.true_and]
+          refine ⟨.heartbeat ⟨id, pairsOf items, []⟩, hwf, Or.inl rfl, decode?_encodeHeartbeat _ hwf, ?_⟩
+          show dispatch cfg st srcIp srcPort (0x03 :: rest) now
+            = dispatch cfg st srcIp srcPort (0x03 :: (id ++ (encodePairs (pairsOf items) ++ []))) now
+          rw [dispatch_heartbeat, dispatch_heartbeat]
+          refine handleHeartbeat_congr cfg st srcIp srcPort now _ _ id r (encodePairs (pairsOf items) ++ []) fields hp hf
+            (parseInstanceID_cons _ id _ hid) ?_
+          unfold parseHeartbeatParams
+          rw [parseParamsAux_encode [] rfl (pairsOf items) hwfk [] _ (Nat.le_refl _), hfields,
+            fieldsOfItems_pairs items hall]
+    · rw [if_neg ht] at h
+      by_cases hk : t.toNat = Facts.reporterMsgKeepalive
+      · rw [if_pos hk] at h
+        have ht8 : t = 0x08 := u8_of_toNat 0x08 (by decide) hk
+        subst ht8
+        cases hp : parseInstanceID (0x08 :: rest) with
+        | none => rw [hp] at h; cases h
+        | some p =>
+          obtain ⟨id, r⟩ := p
+          obtain ⟨hid, hrest⟩ := parseInstanceID_some hp
+          refine ⟨.keepalive id, by simp [wfMsg, hid], Or.inr rfl, decode?_keepalive id hid, ?_⟩
+          show dispatch cfg st srcIp srcPort (0x08 :: rest) now = dispatch cfg st srcIp srcPort (0x08 :: id) now
+          rw [dispatch_keepalive, dispatch_keepalive]
+          unfold handleKeepalive
+          have h2 := parseInstanceID_cons 0x08 id [] hid
+          rw [List.append_nil] at h2
+          rw [hp, h2]
+      · rw [if_neg hk] at h; cases h
+
+
+/-! ### the leniencies are real: three witnesses (model by `decide`; the same datagrams were run through the real
+dispatcher with the harness — `C06 hist …` — and are accepted there too) -/
+
+/-- a valid first report for game port 10480 (NUL-terminated pairs) -/
+def okBody : Bytes :=
+  kv "hostname" "Srv" ++ kv "hostport" "10480" ++ kv "localport" "10481" ++ kv "gamevariant" "SWAT 4" ++ kv "gamever" "1.1" ++
+  kv "gametype" "VIP Escort" ++ kv "mapname" "A-Bomb Nightclub" ++ kv "numplayers" "3" ++ kv "maxplayers" "16"
+
+def okItems : List Item :=
+  [.pair (ascii "hostname") (ascii "Srv"), .pair (ascii "hostport") (ascii "10480"), .pair (ascii "localport") (ascii "10481"),
+   .pair (ascii "gamevariant") (ascii "SWAT 4"), .pair (ascii "gamever") (ascii "1.1"), .pair (ascii "gametype") (ascii "VIP Escort"),
+   .pair (ascii "mapname") (ascii "A-Bomb Nightclub"), .pair (ascii "numplayers") (ascii "3"), .pair (ascii "maxplayers") (ascii "16")]
+
+def xid : Bytes := [0xde, 0xad, 0xbe, 0xef]
+
+/-- the report with its final NUL cut off -/
+def wUnterminated : Bytes := (0x03 :: (xid ++ okBody)).dropLast
+/-- the report preceded by ONE unknown string (no value) -/
+def wOddSkip : Bytes := 0x03 :: (xid ++ (ascii "junk" ++ 0 :: okBody))
+/-- a keepalive with one extra byte -/
+def wKeepalive : Bytes := 0x08 :: (xid ++ [0x00])
+
+theorem ne_of_servers_size {s t : AbsState} (h : s.servers.size ≠ t.servers.size) : s ≠ t :=
+  fun e => h (by rw [e])
+
+set_option maxRecDepth 20000 in
+/-- **Witness 1 (unterminated last string).** The strict decoder rejects it, the dispatcher registers the server
+(Go: `ConsumeCString` returns `data, nil` when no NUL is left and the loop ends on `len(unparsed) == 0`). -/
+example : decode? wUnterminated = none ∧ (dispatch ⟨3⟩ {} 0x01010101 1234 wUnterminated 1000).1 ≠ {} ∧ Quirk wUnterminated :=
+  ⟨by decide, ne_of_servers_size (by decide), Quirk.unterminated xid okItems rfl (by decide) (by decide)⟩
+
+set_option maxRecDepth 20000 in
+/-- **Witness 2 (unknown string without a value).** Read strictly the pairs misalign (`junk`=`hostname`,
+`Srv`=`hostport`, …) and the decoder rejects; the scanner skips `junk` alone and registers the server. -/
+example : decode? wOddSkip = none ∧ (dispatch ⟨3⟩ {} 0x01010101 1234 wOddSkip 1000).1 ≠ {} ∧ Quirk wOddSkip :=
+  ⟨by decide, ne_of_servers_size (by decide),
+    Quirk.oddSkip xid (.skip (ascii "junk") :: okItems) [] rfl (by decide) rfl (by decide) (by decide)⟩
+
+/-- the registry after the (well-formed) report from 1.1.1.1 at clock 1000 -/
+def stReg : AbsState := (dispatch ⟨3⟩ {} 0x01010101 1234 (0x03 :: (xid ++ okBody)) 1000).1
+
+set_option maxRecDepth 20000 in
+/-- **Witness 3 (keepalive with trailing bytes).** Six bytes: the strict decoder rejects, the handler refreshes
+the server (`refreshedAt` 1000 → 2024). -/
+example : decode? wKeepalive = none ∧ (dispatch ⟨3⟩ stReg 0x01010101 1234 wKeepalive 2024).1 ≠ stReg ∧ Quirk wKeepalive := by
+  refine ⟨by decide, ?_, Quirk.keepaliveTrailer xid [0x00] rfl (by decide) rfl⟩
+  intro e
+  have h : ((dispatch ⟨3⟩ stReg 0x01010101 1234 wKeepalive 2024).1.servers[(⟨0x01010101, 10480⟩ : Addr).key]?).map (·.svr.refreshedAt)
+      = (stReg.servers[(⟨0x01010101, 10480⟩ : Addr).key]?).map (·.svr.refreshedAt) := by rw [e]
+  revert h
+  decide
+
+set_option maxRecDepth 20000 in
+/-- the hypothesis of `reaches_implies_decodable` / `acts_as_wellformed` is satisfiable, by quirky and by strict datagrams -/
+example : reachesUseCase 0x01010101 wUnterminated = true ∧ reachesUseCase 0x01010101 wOddSkip = true ∧
+    reachesUseCase 0x01010101 wKeepalive = true ∧ reachesUseCase 0x01010101 (0x03 :: (xid ++ okBody)) = true := by
+  refine ⟨?_, ?_, ?_, ?_⟩ <;> decide
+
+set_option maxRecDepth 20000 in
+/-- non-vacuity of the first disjunct: the well-formed report is accepted by the decoder and changes the state -/
+example : (decode? (0x03 :: (xid ++ okBody))).map Msg.isHeartbeat = some true ∧
+    (dispatch ⟨3⟩ {} 0x01010101 1234 (0x03 :: (xid ++ okBody)) 1000).1 ≠ {} :=
+  ⟨by decide, ne_of_servers_size (by decide)⟩
 
 /-! ## TCP: totality of the request parser -/
 
